@@ -127,7 +127,7 @@ def _wdtype(dt):
     return "int8" if dt in ("int8", "int16") else "uint8"
 
 
-def _conv_like(net, kind, k, s, pad, act, cout=None, dil=1, per_channel=False, dm=1, dyn=False, bias=True, wzp8=0):
+def _conv_like(net, kind, k, s, pad, act, cout=None, dil=1, per_channel=False, dm=1, dyn=False, bias=True, wzp8=0, groups=1):
     if not _hw4(net):
         return False
     x = net.cur
@@ -141,7 +141,9 @@ def _conv_like(net, kind, k, s, pad, act, cout=None, dil=1, per_channel=False, d
     wdt = _wdtype(dt)
     if kind == "conv":
         cout = cout or 8
-        wshape = [cout, k, k, c]
+        if c % groups or cout % groups:
+            return False
+        wshape = [cout, k, k, c // groups]  # groups > 1: grouped convolution (filter depth = input depth / groups)
     else:
         cout = c * dm
         wshape = [1, k, k, cout]
@@ -173,6 +175,9 @@ def _conv_like(net, kind, k, s, pad, act, cout=None, dil=1, per_channel=False, d
 
 
 inst("conv1x1", "c")(lambda n: _conv_like(n, "conv", 1, 1, PAD_SAME, "NONE"))
+inst("conv3x3_g2")(lambda n: _conv_like(n, "conv", 3, 1, PAD_SAME, "NONE", groups=2))
+inst("conv3x3_g2_pc")(lambda n: _conv_like(n, "conv", 3, 1, PAD_SAME, "NONE", groups=2, per_channel=True))
+inst("conv1x1_g4")(lambda n: _conv_like(n, "conv", 1, 1, PAD_SAME, "NONE", groups=4, cout=16))
 inst("conv3x3", "c")(lambda n: _conv_like(n, "conv", 3, 1, PAD_SAME, "NONE", per_channel=True))
 inst("conv3x3s2", "c")(lambda n: _conv_like(n, "conv", 3, 2, PAD_SAME, "RELU"))
 inst("conv3x3v_relu6", "c")(lambda n: _conv_like(n, "conv", 3, 1, PAD_VALID, "RELU6", cout=16))
@@ -1188,7 +1193,7 @@ SIGMA_Q = [
     "conv1x1", "conv3x3", "conv3x3s2", "conv3x3v_relu6", "conv3x3d2", "dw3x3", "dw3x3s2", "fc", "maxpool2x2",
     "avgpool2x2", "avgpool3x3same", "add_res", "add_const", "add_scalar", "add_bcast_h", "sub_const", "mul_const",
     "min_const", "relu", "leaky_relu", "logistic", "tanh", "hard_swish", "reshape", "concat", "split", "strided_slice",
-    "pad_hw", "pad_c", "mean", "resize_nn2", "quantize", "tconv_s2", "softmax", "cpu_d2s", "cpu_custom", "conv_dynw", "cpu_neg", "tap", "branch_cpu", "branch_npu", "conv_dynw_nobias", "cpu_custom_opt", "conv3x3_c1", "slice", "conv_again", "conv_pair_shared", "reshape_requant", "fc_fc_sq", "conv_c3_sq", "cpu_conv_s4", "cpu_conv_s4_pair", "logistic_coarse", "c24_reshape_w_relu", "conv_then_c1", "cpu_squeeze0", "late_cpu_reader", "skip_over_cpu", "cpu_sub_nopot", "lut_evict_chain", "lut_same_over_ew", "fanout_reshape_c24", "fanout_reshape_c32",
+    "pad_hw", "pad_c", "mean", "resize_nn2", "quantize", "tconv_s2", "softmax", "cpu_d2s", "cpu_custom", "conv_dynw", "cpu_neg", "tap", "branch_cpu", "branch_npu", "conv_dynw_nobias", "cpu_custom_opt", "conv3x3_c1", "slice", "conv_again", "conv_pair_shared", "reshape_requant", "fc_fc_sq", "conv_c3_sq", "cpu_conv_s4", "cpu_conv_s4_pair", "logistic_coarse", "c24_reshape_w_relu", "conv_then_c1", "cpu_squeeze0", "late_cpu_reader", "skip_over_cpu", "cpu_sub_nopot", "lut_evict_chain", "lut_same_over_ew", "fanout_reshape_c24", "fanout_reshape_c32", "conv3x3_g2", "conv3x3_g2_pc", "conv1x1_g4",
 ]
 SIGMA_T = SIGMA_Q + [n for n, (_, tags) in INSTANCES.items() if "t" in tags]
 SIGMA_C = [n for n, (_, tags) in INSTANCES.items() if "c" in tags]
